@@ -72,16 +72,19 @@ Section Formula.
     unfold estimate_sq. rewrite !varsum_sum, mean_scale, sum_sqdev_scale, map_length. ring.
   Qed.
 
+  Lemma kpos_succ p : kpos k1 kadd kmul (Pos.succ p) = 1 + kpos k1 kadd kmul p.
+  Proof. induction p as [p IH|p IH|]; cbn [Pos.succ kpos]; [rewrite IH; ring | ring | ring]. Qed.
+
+  Lemma ofZ_succ z : (0 <= z)%Z -> ofZ (Z.succ z) = 1 + ofZ z.
+  Proof.
+    intros Hz. destruct z as [|p|p]; [cbn; ring | | lia].
+    rewrite <- Pos2Z.inj_succ. cbn [kz]. apply kpos_succ.
+  Qed.
+
   Lemma sum_shift a l : sum (map (fun t => t + a) l) = sum l + ofZ (Z.of_nat (length l)) * a.
   Proof.
     induction l as [|x t IH]; [cbn; ring|].
-    cbn [map ksum length]. rewrite IH. rewrite Nat2Z.inj_succ.
-    assert (E : ofZ (Z.succ (Z.of_nat (length t))) = 1 + ofZ (Z.of_nat (length t))).
-    { generalize (Z.of_nat (length t)) (Nat2Z.is_nonneg (length t)). intros z Hz.
-      destruct z as [|p|p]; [cbn; ring | | lia].
-      rewrite <- Pos2Z.inj_succ. cbn [kz].
-      clear. induction p as [p IH|p IH|]; cbn [Pos.succ kpos]; [rewrite IH; ring | ring | ring]. }
-    rewrite E. ring.
+    cbn [map ksum length]. rewrite IH, Nat2Z.inj_succ, ofZ_succ by apply Nat2Z.is_nonneg. ring.
   Qed.
 
   Lemma mean_shift a th : ofZ (Z.of_nat (length th)) <> 0 -> mean (map (fun t => t + a) th) = mean th + a.
